@@ -14,12 +14,16 @@ import (
 	"sort"
 
 	"github.com/nginx/kubernetes-ingress/internal/configs"
+	"github.com/nginx/kubernetes-ingress/internal/k8s"
 	"github.com/nginx/kubernetes-ingress/internal/k8s/secrets"
 	"github.com/nginx/kubernetes-ingress/internal/nginx"
 	"github.com/nginx/kubernetes-ingress/internal/verifh/vh"
 	conf_v1 "github.com/nginx/kubernetes-ingress/pkg/apis/configuration/v1"
+	api_v1 "k8s.io/api/core/v1"
+	discovery_v1 "k8s.io/api/discovery/v1"
 	networking "k8s.io/api/networking/v1"
 	meta_v1 "k8s.io/apimachinery/pkg/apis/meta/v1"
+	"k8s.io/apimachinery/pkg/util/intstr"
 )
 
 // ---------------------------------------------------------------- recording manager
@@ -783,12 +787,502 @@ func main() {
 	}
 }
 
-// ---------------------------------------------------------------- family ctl (stub, filled in below)
+// ---------------------------------------------------------------- family ctl: the real lbc.sync
 
+// Task is one dequeued work item.  Kind/Name/Act/SV/EV/MV say how the cluster changed before
+// the item is processed (what the informer would have stored); QLen is the queue length during
+// the sync.  Work, Found, Reports, MVNow and All are the harness's own prediction of what the
+// handler asks of the Configurator, computed from its bookkeeping of the cluster -- they are the
+// model's input and are never read back from the code under test.
 type Task struct {
-	Kind string `json:"kind"`
+	Kind    string `json:"kind"` // ingress | virtualserver | transportserver | endpointslice | configmap
+	Name    string `json:"name"` // resource name, or service name for endpointslice
+	Act     string `json:"act"`  // set | delete | touch
+	SV      int    `json:"sv"`
+	EV      int    `json:"ev"`
+	MV      int    `json:"mv"`
+	QLen    int    `json:"qlen"`
+	Work    []Op   `json:"work"`
+	Found   bool   `json:"found"`
+	Reports bool   `json:"reports"`
+	MVNow   int    `json:"mvnow"`
+	All     []Res  `json:"all"`
+	AllRep  bool   `json:"allrep"` // updateAllConfigs has an object to report on
 }
 
-func corpusCtl() []Case              { return nil }
-func genCtl(r *vh.Rng, id int) Case { return genCfg(r, id) }
-func runCtl(c *Case)                 { c.Obs = map[string]string{"error": "ctl family not built"} }
+type SyncObs struct {
+	Log      []Ev     `json:"log"`
+	Enabled  bool     `json:"enabled"`
+	Ready    bool     `json:"ready"`
+	Batch    bool     `json:"batch"`
+	EBR      bool     `json:"ebr"`
+	UAB      bool     `json:"uab"`
+	Reported bool     `json:"reported"`
+	Events   []string `json:"events"`
+	Error    string   `json:"error,omitempty"`
+	Panic    string   `json:"panic,omitempty"`
+}
+
+type ctlRes struct {
+	kind  string // model kind: ing | vs | ts
+	task  string // task kind
+	svcs  []string
+	split bool
+}
+
+var ctlPool = map[string]ctlRes{
+	"a": {kind: "ing", task: "ingress", svcs: []string{"a-svc"}},
+	"b": {kind: "ing", task: "ingress", svcs: []string{"b-svc"}},
+	"v": {kind: "vs", task: "virtualserver", svcs: []string{"v-svc"}},
+	"w": {kind: "vs", task: "virtualserver", svcs: []string{"w-svc0", "w-svc1"}, split: true},
+	"t": {kind: "ts", task: "transportserver", svcs: []string{"t-svc"}},
+}
+var ctlNames = []string{"a", "b", "v", "w", "t"}
+var ctlSvcs = []string{"a-svc", "b-svc", "v-svc", "w-svc0", "w-svc1", "t-svc", "z-svc"}
+
+// world is the harness's bookkeeping of the cluster and of what the controller has accepted.
+type world struct {
+	plus, dynw bool
+	obj        map[string]int // resource name -> spec variant of the object in the cluster
+	known      map[string]int // resource name -> spec variant the controller has configured
+	ev         map[string]int // service -> endpoints variant (0: no EndpointSlice)
+	cm         int            // ConfigMap variant in the cluster (0: none)
+	held       int            // ConfigMap variant the controller holds
+}
+
+func newWorld(plus, dynw bool) *world {
+	return &world{plus: plus, dynw: dynw, obj: map[string]int{}, known: map[string]int{}, ev: map[string]int{}}
+}
+
+func (w *world) res(name string) Res {
+	p := ctlPool[name]
+	r := Res{Kind: p.kind, Name: name, SV: w.known[name], File: fileOf(p.kind, name)}
+	ver, mul := w.known[name]*1000, 1
+	for _, s := range p.svcs {
+		ver += w.ev[s] * mul
+		mul *= 10
+	}
+	r.Ver = ver
+	g := []string{}
+	switch p.kind {
+	case "ing":
+		g = append(g, fmt.Sprintf("%s-%s-%s.example.com-%s-80", ns, name, name, p.svcs[0]))
+	case "vs":
+		for i := range p.svcs {
+			g = append(g, fmt.Sprintf("vs_%s_%s_u%d", ns, name, i))
+		}
+		if p.split && w.dynw {
+			r.Weights = 1
+		}
+	case "ts":
+		g = append(g, fmt.Sprintf("ts_%s_%s_u0", ns, name))
+	}
+	r.Apis = [][]string{g}
+	return r
+}
+
+func (w *world) all() []Res {
+	out := []Res{}
+	for _, k := range []string{"ing", "ts", "vs"} { // GetResources sorts by Kind/namespace/name: Ingress < TransportServer < VirtualServer
+		_ = k
+	}
+	// UpdateConfig then processes IngressExes, VirtualServerExes, TransportServerExes in that order
+	for _, k := range []string{"ing", "vs", "ts"} {
+		for _, n := range ctlNames {
+			if ctlPool[n].kind != k {
+				continue
+			}
+			if _, ok := w.known[n]; ok {
+				out = append(out, w.res(n))
+			}
+		}
+	}
+	return out
+}
+
+// predict fills the model-side fields of a task and advances the bookkeeping.
+func (w *world) predict(t *Task) {
+	t.Work, t.Found, t.Reports = []Op{}, false, true
+	switch t.Kind {
+	case "ingress", "virtualserver", "transportserver":
+		p := ctlPool[t.Name]
+		switch t.Act {
+		case "set":
+			w.obj[t.Name] = t.SV
+		case "delete":
+			delete(w.obj, t.Name)
+		}
+		if sv, ok := w.obj[t.Name]; ok {
+			if k, was := w.known[t.Name]; !was || k != sv {
+				w.known[t.Name] = sv
+				r := w.res(t.Name)
+				t.Work = append(t.Work, Op{Op: "add", Res: &r})
+			}
+		} else if _, was := w.known[t.Name]; was {
+			delete(w.known, t.Name)
+			t.Work = append(t.Work, Op{Op: "del", Kind: p.kind, Name: t.Name, File: fileOf(p.kind, t.Name)})
+			t.Reports = false
+		}
+	case "endpointslice":
+		switch t.Act {
+		case "set":
+			w.ev[t.Name] = t.EV
+		case "delete":
+			w.ev[t.Name] = 0
+		}
+		if w.ev[t.Name] != 0 {
+			for _, n := range ctlNames {
+				p := ctlPool[n]
+				if _, ok := w.known[n]; !ok {
+					continue
+				}
+				for _, s := range p.svcs {
+					if s == t.Name {
+						t.Found = true
+						t.Work = append(t.Work, Op{Op: "endp", Kind: p.kind, Rs: []Res{w.res(n)}})
+					}
+				}
+			}
+		}
+		t.Reports = false
+	case "configmap":
+		switch t.Act {
+		case "set":
+			w.cm = t.MV
+		case "delete":
+			w.cm = 0
+		}
+		w.held = w.cm
+	}
+	t.MVNow = w.held
+	t.All = w.all()
+	t.AllRep = len(t.All) > 0 || w.held != 0
+}
+
+// ---- cluster objects
+
+func svcObj(name string) *api_v1.Service {
+	return &api_v1.Service{
+		ObjectMeta: meta_v1.ObjectMeta{Name: name, Namespace: ns},
+		Spec: api_v1.ServiceSpec{Ports: []api_v1.ServicePort{{Name: "p", Port: 80, TargetPort: intstr.FromInt(8080), Protocol: api_v1.ProtocolTCP}}},
+	}
+}
+
+func sliceObj(svc string, ev int) *discovery_v1.EndpointSlice {
+	ready, port, pname := true, int32(8080), "p"
+	return &discovery_v1.EndpointSlice{
+		ObjectMeta: meta_v1.ObjectMeta{Name: svc + "-slice", Namespace: ns, Labels: map[string]string{"kubernetes.io/service-name": svc}},
+		AddressType: discovery_v1.AddressTypeIPv4,
+		Ports:       []discovery_v1.EndpointPort{{Name: &pname, Port: &port}},
+		Endpoints:   []discovery_v1.Endpoint{{Addresses: []string{fmt.Sprintf("10.0.%d.1", ev)}, Conditions: discovery_v1.EndpointConditions{Ready: &ready}}},
+	}
+}
+
+func ctlIngress(name string, sv int) *networking.Ingress {
+	ing := ingress(name, name+".example.com", sv, "", []string{"/"}, []string{ctlPool[name].svcs[0]})
+	pt := networking.PathTypePrefix
+	ing.Spec.Rules[0].HTTP.Paths[0].PathType = &pt
+	return ing
+}
+
+func ctlVS(name string, sv int) *conf_v1.VirtualServer {
+	p := ctlPool[name]
+	vs := &conf_v1.VirtualServer{
+		ObjectMeta: meta_v1.ObjectMeta{Name: name, Namespace: ns, Generation: int64(sv + 1)},
+		Spec:       conf_v1.VirtualServerSpec{IngressClass: "nginx", Host: name + ".vs.example.com"},
+	}
+	for i, s := range p.svcs {
+		vs.Spec.Upstreams = append(vs.Spec.Upstreams, conf_v1.Upstream{Name: fmt.Sprintf("u%d", i), Service: s, Port: 80,
+			ProxyConnectTimeout: fmt.Sprintf("%ds", 10+sv)})
+	}
+	if p.split {
+		vs.Spec.Routes = []conf_v1.Route{{Path: "/", Splits: []conf_v1.Split{
+			{Weight: 90, Action: &conf_v1.Action{Pass: "u0"}}, {Weight: 10, Action: &conf_v1.Action{Pass: "u1"}}}}}
+	} else {
+		vs.Spec.Routes = []conf_v1.Route{{Path: "/", Action: &conf_v1.Action{Pass: "u0"}}}
+	}
+	return vs
+}
+
+func ctlTS(name string, sv int) *conf_v1.TransportServer {
+	return &conf_v1.TransportServer{
+		ObjectMeta: meta_v1.ObjectMeta{Name: name, Namespace: ns, Generation: int64(sv + 1)},
+		Spec: conf_v1.TransportServerSpec{
+			IngressClass:       "nginx",
+			Listener:           conf_v1.TransportServerListener{Name: "tcp-" + name, Protocol: "TCP"},
+			Upstreams:          []conf_v1.TransportServerUpstream{{Name: "u0", Service: ctlPool[name].svcs[0], Port: 80}},
+			UpstreamParameters: &conf_v1.UpstreamParameters{ConnectTimeout: fmt.Sprintf("%ds", 10+sv)},
+			Action:             &conf_v1.TransportServerAction{Pass: "u0"},
+		},
+	}
+}
+
+func cmObj(mv int) *api_v1.ConfigMap {
+	return &api_v1.ConfigMap{
+		ObjectMeta: meta_v1.ObjectMeta{Name: "nginx-config", Namespace: "nginx-ingress"},
+		Data:       map[string]string{"worker-connections": fmt.Sprintf("%d", 2000+mv)},
+	}
+}
+
+// mutate stores what the informer would have stored before the task is dequeued.
+func mutate(v *k8s.VerifC12, t Task) (string, error) {
+	switch t.Kind {
+	case "ingress":
+		if t.Act == "set" {
+			return keyOf(t.Name), v.Put("ingress", ctlIngress(t.Name, t.SV))
+		} else if t.Act == "delete" {
+			return keyOf(t.Name), v.Remove("ingress", ctlIngress(t.Name, 0))
+		}
+		return keyOf(t.Name), nil
+	case "virtualserver":
+		if t.Act == "set" {
+			return keyOf(t.Name), v.Put("virtualserver", ctlVS(t.Name, t.SV))
+		} else if t.Act == "delete" {
+			return keyOf(t.Name), v.Remove("virtualserver", ctlVS(t.Name, 0))
+		}
+		return keyOf(t.Name), nil
+	case "transportserver":
+		if t.Act == "set" {
+			return keyOf(t.Name), v.Put("transportserver", ctlTS(t.Name, t.SV))
+		} else if t.Act == "delete" {
+			return keyOf(t.Name), v.Remove("transportserver", ctlTS(t.Name, 0))
+		}
+		return keyOf(t.Name), nil
+	case "endpointslice":
+		key := keyOf(t.Name + "-slice")
+		if t.Act == "set" {
+			return key, v.Put("endpointslice", sliceObj(t.Name, t.EV))
+		} else if t.Act == "delete" {
+			return key, v.Remove("endpointslice", sliceObj(t.Name, 0))
+		}
+		return key, nil
+	case "configmap":
+		if t.Act == "set" {
+			return k8s.VerifC12ConfigMapKey, v.Put("configmap", cmObj(t.MV))
+		} else if t.Act == "delete" {
+			return k8s.VerifC12ConfigMapKey, v.Remove("configmap", cmObj(0))
+		}
+		return k8s.VerifC12ConfigMapKey, nil
+	}
+	return "", fmt.Errorf("unknown task kind %q", t.Kind)
+}
+
+func isErrorEvent(e string) bool {
+	return len(e) > 8 && e[:8] == "Warning " && (contains(e, "WithError"))
+}
+
+func contains(s, sub string) bool {
+	for i := 0; i+len(sub) <= len(s); i++ {
+		if s[i:i+len(sub)] == sub {
+			return true
+		}
+	}
+	return false
+}
+
+func eventHeads(evs []string) []string {
+	out := []string{}
+	for _, e := range evs {
+		// "<type> <reason> <message>": keep type and reason only (no prose)
+		n, sp := 0, 0
+		for n < len(e) {
+			if e[n] == ' ' {
+				sp++
+				if sp == 2 {
+					break
+				}
+			}
+			n++
+		}
+		out = append(out, e[:n])
+	}
+	sort.Strings(out)
+	return out
+}
+
+func runCtl(c *Case) {
+	m := newRecMgr(c.RFail, c.AFail)
+	cnf, err := configs.VerifC12NewConfigurator(repoDir(), m, c.Plus, c.DynW)
+	if err != nil {
+		c.Obs = map[string]string{"error": err.Error()}
+		return
+	}
+	v, err := k8s.VerifC12New(cnf, c.Plus, c.DynW, []conf_v1.Listener{{Name: "tcp-t", Port: 9000, Protocol: "TCP"}})
+	if err != nil {
+		c.Obs = map[string]string{"error": err.Error()}
+		return
+	}
+	for _, s := range ctlSvcs {
+		if err := v.Put("service", svcObj(s)); err != nil {
+			c.Obs = map[string]string{"error": err.Error()}
+			return
+		}
+	}
+	obs := []SyncObs{}
+	for _, t := range c.Tasks {
+		o := func() (o SyncObs) {
+			defer func() {
+				if p := recover(); p != nil {
+					o.Panic = fmt.Sprint(p)
+				}
+				o.Log = m.take()
+				o.Enabled = cnf.VerifC12ReloadsEnabled()
+				o.Ready, o.Batch, o.EBR, o.UAB = v.Flags()
+			}()
+			key, err := mutate(v, t)
+			if err != nil {
+				o.Error = err.Error()
+				return o
+			}
+			evs, err := v.Sync(t.Kind, key, t.QLen)
+			if err != nil {
+				o.Error = err.Error()
+			}
+			o.Events = eventHeads(evs)
+			for _, e := range evs {
+				if isErrorEvent(e) {
+					o.Reported = true
+				}
+			}
+			return o
+		}()
+		obs = append(obs, o)
+	}
+	c.Obs = obs
+}
+
+// ---- generator
+
+func genTask(r *vh.Rng, w *world) Task {
+	var t Task
+	switch x := r.Intn(100); {
+	case x < 40:
+		n := vh.Pick(r, ctlNames)
+		t = Task{Kind: ctlPool[n].task, Name: n}
+		switch y := r.Intn(10); {
+		case y < 5:
+			t.Act, t.SV = "set", r.Intn(3)
+			if sv, ok := w.obj[n]; ok && r.Chance(1, 3) {
+				t.SV = sv // an update that changes nothing
+			}
+		case y < 7:
+			t.Act = "delete"
+		default:
+			t.Act = "touch" // resync / duplicate event
+		}
+	case x < 85:
+		t = Task{Kind: "endpointslice", Name: vh.Pick(r, ctlSvcs)}
+		switch y := r.Intn(10); {
+		case y < 7:
+			t.Act, t.EV = "set", 1+r.Intn(3)
+		case y < 8:
+			t.Act = "delete"
+		default:
+			t.Act = "touch"
+		}
+	default:
+		t = Task{Kind: "configmap", Name: "nginx-config"}
+		if r.Chance(3, 4) {
+			t.Act, t.MV = "set", 1+r.Intn(3)
+		} else if r.Chance(1, 2) {
+			t.Act = "delete"
+		} else {
+			t.Act = "touch"
+		}
+	}
+	return t
+}
+
+func genCtl(r *vh.Rng, id int) Case {
+	c := Case{Fam: "ctl", ID: id, Plus: r.Chance(1, 2), DynW: r.Chance(1, 4)}
+	switch id % 3 {
+	case 0:
+		c.Class = "nofault"
+		c.RFail, c.AFail = []int{}, []int{}
+	case 1:
+		c.Class = "reloadfault"
+		c.RFail, c.AFail = pickFails(r, 30, 1, 4), []int{}
+	default:
+		c.Class = "bothfault"
+		c.RFail, c.AFail = pickFails(r, 30, 1, 4), pickFails(r, 40, 1, 4)
+		c.Plus = true
+	}
+	w := newWorld(c.Plus, c.DynW)
+	n := 3 + r.Intn(28)
+	// queue lengths: a start-up phase, then bursts (batches) and single events
+	startup := r.Intn(5)
+	left := 0
+	for i := 0; i < n; i++ {
+		t := genTask(r, w)
+		switch {
+		case i < startup:
+			t.QLen = startup - i
+		case i == startup:
+			t.QLen = 0
+		case left > 0:
+			left--
+			t.QLen = left
+			if left > 0 && r.Chance(1, 6) {
+				t.QLen = left + 1 // new items arrive while the batch runs
+				left++
+			}
+		default:
+			if r.Chance(1, 3) {
+				left = 2 + r.Intn(4)
+				t.QLen = left
+			} else {
+				t.QLen = r.Intn(2) // 0, or 1 pending (not a batch)
+			}
+		}
+		w.predict(&t)
+		c.Tasks = append(c.Tasks, t)
+	}
+	return c
+}
+
+func mkTasks(plus, dynw bool, ts []Task) []Task {
+	w := newWorld(plus, dynw)
+	for i := range ts {
+		w.predict(&ts[i])
+	}
+	return ts
+}
+
+func corpusCtl() []Case {
+	var out []Case
+	add := func(class string, plus, dynw bool, rfail, afail []int, ts []Task) {
+		out = append(out, Case{Fam: "ctl", Class: class, Plus: plus, DynW: dynw, RFail: rfail, AFail: afail, Tasks: mkTasks(plus, dynw, ts)})
+	}
+	ing := func(n, act string, sv, q int) Task { return Task{Kind: "ingress", Name: n, Act: act, SV: sv, QLen: q} }
+	eps := func(s, act string, ev, q int) Task { return Task{Kind: "endpointslice", Name: s, Act: act, EV: ev, QLen: q} }
+	// F16a: an idle batch (two events for an unchanged Ingress) ends with a reload
+	add("corpus-idle-batch", false, false, []int{}, []int{},
+		[]Task{ing("a", "set", 0, 0), ing("a", "touch", 0, 2), ing("a", "touch", 0, 1), ing("a", "touch", 0, 0)})
+	// an idle batch of endpointslice events only: no reload
+	add("corpus-idle-batch-endp", false, false, []int{}, []int{},
+		[]Task{ing("a", "set", 0, 0), eps("z-svc", "set", 1, 2), eps("z-svc", "set", 2, 0)})
+	// a batch that changes files: one reload at the end
+	add("corpus-batch", false, false, []int{}, []int{},
+		[]Task{ing("a", "set", 0, 0), ing("a", "set", 1, 3), eps("a-svc", "set", 1, 2), ing("b", "set", 0, 1), ing("a", "delete", 0, 0)})
+	// F16b: the reload that ends a batch fails (call index 1; index 0 is the start-up reload)
+	add("corpus-batch-reloadfail", false, false, []int{1}, []int{},
+		[]Task{ing("a", "set", 0, 0), ing("a", "set", 1, 2), ing("b", "set", 0, 0)})
+	// a failed reload outside a batch is reported on the resource
+	add("corpus-single-reloadfail", false, false, []int{1}, []int{},
+		[]Task{ing("a", "set", 0, 0), ing("a", "set", 1, 0)})
+	// F16d: a failed reload while endpoints are updated (OSS) is only logged
+	add("corpus-endp-reloadfail", false, false, []int{1}, []int{},
+		[]Task{ing("a", "set", 0, 0), eps("a-svc", "set", 1, 0)})
+	// F16c: a ConfigMap in one batch makes every later batch regenerate everything
+	add("corpus-uab-sticky", false, false, []int{}, []int{},
+		[]Task{ing("a", "set", 0, 0), {Kind: "configmap", Name: "nginx-config", Act: "set", MV: 1, QLen: 2}, ing("a", "touch", 0, 0),
+			ing("a", "touch", 0, 2), ing("a", "touch", 0, 0)})
+	// F15 at the controller: a VirtualServer with weight updates during start-up and in a batch
+	add("corpus-weights-batch", true, true, []int{}, []int{},
+		[]Task{{Kind: "virtualserver", Name: "w", Act: "set", SV: 0, QLen: 1}, ing("a", "set", 0, 0),
+			{Kind: "virtualserver", Name: "w", Act: "set", SV: 1, QLen: 2}, ing("a", "set", 1, 1), ing("b", "set", 0, 0)})
+	// Plus: endpoints through the API, API failure falls back to reload, in and out of a batch
+	add("corpus-plus-endp", true, false, []int{}, []int{1},
+		[]Task{ing("a", "set", 0, 0), eps("a-svc", "set", 1, 0), eps("a-svc", "set", 2, 0), eps("a-svc", "set", 3, 2), eps("a-svc", "set", 1, 0)})
+	return out
+}
